@@ -4,7 +4,7 @@ Monitor: write-footprint tap.  The target holds unique cell ids, the assigned va
 unique numbers >= 100000, and *every* live array (target, an alias ra[...], an unrelated
 bystander, the value operand) is peeked before and after the write."""
 import numpy as np
-from ..core import CTX, attempt, held, violated, undefined, peek, short
+from ..core import CTX, attempt, held, violated, undefined, peek, short, lists_same
 from .. import gen, model, contracts
 from . import c02
 
@@ -25,8 +25,9 @@ ANCHORS = [
 ]
 VK = ["scalar", "flat", "flatlist", "colvec", "collist", "ragged", "bad_same_total", "bad_total", "bad_rows"]
 FLOOR_TAGS = ["vk:" + v for v in VK] + ["mask:scalar", "mask:flat", "r:int", "r:slice+1", "r:slice+k", "r:slice-", "r:list", "r:mask", "r:ell",
+                                        "recv:fresh", "recv:lazyrows", "recv:lazycols+2", "recv:lazycols-1", "recv:lazychain", "values:hostile-floats",
                                         "c:none", "c:int+", "c:int-", "c:slice+1", "c:slice+k", "c:slice-", "sel-has-empty-row", "e-first", "e-last", "e-mid", "allempty", "norows"]
-FLOOR_MONITORS = ["c03:footprint", "c03:must-refuse", "c03:bystander", "c03:alias", "inv:ragged"]
+FLOOR_MONITORS = ["c03:footprint", "c03:must-refuse", "c03:bystander", "c03:alias", "c03:parent-untouched", "inv:ragged"]
 N_RANDOM = {"quick": 8000, "thorough": 300000}
 BASE = 100000
 
@@ -35,8 +36,12 @@ def setup(lib):
     contracts.attach(lib, which=("ragged",))
 
 
-def mk_case(lens, rs, cs=None, has_cs=False, vk="scalar", dtype="int64"):
-    return {"lens": list(lens), "rs": rs, "cs": cs, "has_cs": bool(has_cs), "vk": vk, "dtype": dtype}
+HOSTILE = [1e16, 1.0, 3.0, 0.1, 0.7, float("nan"), 1.9, float("inf"), 0.3, -2.5e-7, float("-inf"), 123456.789]
+
+
+def mk_case(lens, rs, cs=None, has_cs=False, vk="scalar", dtype="int64", recv="fresh", hostile=False):
+    return {"lens": list(lens), "rs": rs, "cs": cs, "has_cs": bool(has_cs), "vk": vk, "dtype": dtype, "recv": recv,
+            "hostile": bool(hostile and np.dtype(dtype).kind == "f")}
 
 
 def mk_mask_case(lens, mask, vk="scalar", dtype="int64"):
@@ -83,7 +88,10 @@ def run(case):
     RA = lib.RaggedArray
     lens, rs, cs, has_cs, vk = case["lens"], case["rs"], case["cs"], case["has_cs"], case["vk"]
     dt = np.dtype(case.get("dtype", "int64"))
-    tags = ["vk:" + vk, model.describe_selector(rs), model.describe_cols(cs, has_cs)] + gen.empty_placement(lens)
+    recv = case.get("recv", "fresh")
+    hostile = case.get("hostile", False)
+    val = (lambda k: float(np.array(HOSTILE[k % len(HOSTILE)], dtype=dt))) if hostile else (lambda k: BASE + k)
+    tags = ["vk:" + vk, model.describe_selector(rs), model.describe_cols(cs, has_cs), "recv:" + recv, "values:" + ("hostile-floats" if hostile else "ids")] + gen.empty_placement(lens)
     try:
         kind, cells = model.select_cells(lens, rs, cs, has_cs)
     except model.Refused:
@@ -102,18 +110,18 @@ def run(case):
     must_refuse = False
     value_ra = None
     if vk == "scalar":
-        value = dt.type(BASE)
+        value = dt.type(val(0))
         if len(lens) % 2:
-            value = int(BASE)   # plain python number
+            value = val(0)   # plain python number
         for (i, j) in flatcells:
-            exp[i][j] = BASE
+            exp[i][j] = val(0)
     elif vk in ("flat", "flatlist"):
-        vals = [BASE + k for k in range(ncell)]
+        vals = [val(k) for k in range(ncell)]
         value = np.array(vals, dtype=dt) if vk == "flat" else list(vals)
         for k, (i, j) in enumerate(flatcells):
             exp[i][j] = vals[k]
     elif vk in ("colvec", "collist"):
-        col = [BASE + k for k in range(nsel)]
+        col = [val(k) for k in range(nsel)]
         value = np.array(col, dtype=dt).reshape(nsel, 1) if vk == "colvec" else [[c] for c in col]
         for k, r in enumerate(cells):
             for (i, j) in r:
@@ -127,7 +135,7 @@ def run(case):
             if vlens is None:
                 return undefined("no mismatching value of that kind exists", tags)
             must_refuse = True
-        vals = [BASE + k for k in range(sum(vlens))]
+        vals = [val(k) for k in range(sum(vlens))]
         value_ra = value = RA(np.array(vals, dtype=dt), list(vlens))
         value_before = peek(value_ra)
         if not must_refuse:
@@ -135,8 +143,9 @@ def run(case):
                 exp[i][j] = vals[k]
 
     flat = np.array([v for r in pyrows for v in r], dtype=dt)
-    ra = RA(flat.copy(), list(lens))
-    alias = ra[...]
+    ra, parent = c02.build_receiver(recv, flat, lens)
+    alias = ra[...] if parent is None else None   # taking the alias would materialise a lazy receiver
+    parent_before = peek(parent) if parent is not None else None
     by_rows = gen.id_rows(lens, base=500000)
     bystander = RA(np.array([v for r in by_rows for v in r], dtype=dt), list(lens))
     idx = model.make_index(rs, cs, has_cs)
@@ -152,13 +161,13 @@ def run(case):
         if out.ok:
             return violated("a ragged value with row lengths %s was accepted for a selection with row lengths %s (ra[%s] on lengths %s); target now %s" % (
                 vlens, sel_lens, short(idx), lens, short(after, 200)), tags, got=after, expected="refusal")
-        if after != pyrows:
+        if not lists_same(after, pyrows):
             tags.append("refused-but-mutated")   # recorded, not judged
         return held(tags, nontrivial)
     CTX.tick("c03:footprint", ncell > 0)
     if not out.ok:
         return violated("ra[%s] = %s on rows of lengths %s raised %s: %s" % (short(idx), short(value), lens, type(out.exc).__name__, out.exc), tags, got=repr(out))
-    if after != exp:
+    if not lists_same(after, exp):
         changed = [(i, j) for i in range(len(exp)) if i < len(after) for j in range(min(len(exp[i]), len(after[i]))) if after[i][j] != pyrows[i][j]]
         stray = [c for c in changed if c not in set(flatcells)]
         return violated("ra[%s] = %s on rows of lengths %s: target is %s, expected %s%s" % (
@@ -167,10 +176,15 @@ def run(case):
     CTX.tick("c03:bystander")
     if peek(bystander) != by_rows:
         return violated("ra[%s] = ... changed an unrelated array" % short(idx), tags + ["bystander-changed"])
-    CTX.tick("c03:alias")
-    if peek(alias) != exp:
-        return violated("after ra[%s] = ..., the alias ra[...] reads %s but ra reads %s" % (short(idx), short(peek(alias), 200), short(after, 200)), tags + ["alias-diverged"])
-    if value_ra is not None and peek(value_ra) != value_before:
+    if alias is not None:
+        CTX.tick("c03:alias")
+        if not lists_same(peek(alias), exp):
+            return violated("after ra[%s] = ..., the alias ra[...] reads %s but ra reads %s" % (short(idx), short(peek(alias), 200), short(after, 200)), tags + ["alias-diverged"])
+    else:
+        CTX.tick("c03:parent-untouched")
+        if peek(parent) != parent_before:
+            return violated("assigning into a selection (%s) changed the array it was selected from: %s -> %s" % (recv, short(parent_before, 160), short(peek(parent), 160)), tags + ["parent-changed"])
+    if value_ra is not None and not lists_same(peek(value_ra), value_before):
         return violated("the value operand was modified by the assignment", tags + ["value-mutated"])
     if len(ra) != len(lens) or np.asarray(ra.lengths).tolist() != list(lens):
         return violated("row structure changed by assignment: lengths %s -> %s" % (lens, np.asarray(ra.lengths).tolist()), tags)
@@ -215,6 +229,17 @@ def run_mask(case):
 # ----------------------------------------------------------------------------- workloads
 
 def directed():
+    for c in _directed():
+        yield c
+        if "mask" not in c:
+            k = len(repr(c)) % 4
+            yield dict(c, recv=c02.RECVS[1 + k])
+            if c["vk"] in ("scalar", "flat", "colvec", "collist", "ragged", "flatlist"):
+                yield dict(c, dtype="float64", hostile=True)
+                yield dict(c, dtype="float32", hostile=True, recv=c02.RECVS[1 + (k + 1) % 4])
+
+
+def _directed():
     L = [3, 1, 0, 2, 4]
     sels = [(1, None, False), (-1, None, False), (slice(1, 4), None, False), (slice(None, None, 2), None, False), (slice(None, None, -1), None, False),
             ([4, 0, 2], None, False), ([-1, 1], None, False), (np.array([True, False, True, True, False]), None, False), (Ellipsis, None, False),
@@ -263,7 +288,7 @@ def sweep(tier):
 def random_case(rng, tier):
     lens, _ = gen.length_vector(rng, tier)
     n = len(lens)
-    dtype = rng.choice(["int64", "int64", "int32", "float64"])
+    dtype = rng.choice(["int64", "int64", "int32", "float64", "float64", "float32"])
     if rng.random() < 0.12:
         p = rng.choice([0.0, 0.3, 0.6, 1.0])
         return mk_mask_case(lens, [rng.random() < p for _ in range(sum(lens))], rng.choice(["scalar", "flat"]), dtype)
@@ -291,7 +316,8 @@ def random_case(rng, tier):
             continue
         nsel = len(cells) if kind == "RA" else 1
         vks = [v for v in VK if applicable(kind, v, nsel)]
-        return mk_case(lens, rs, cs, h, rng.choice(vks), dtype)
+        recv = rng.choice(c02.RECVS) if rng.random() < 0.4 else "fresh"
+        return mk_case(lens, rs, cs, h, rng.choice(vks), dtype, recv, hostile=rng.random() < 0.5)
     return mk_case(lens, Ellipsis, None, False, "scalar", dtype)
 
 
